@@ -1,0 +1,24 @@
+"""Verification hooks (off unless the environment variable SKGLM_VERIF=1).
+
+Solvers call ``emit(kind, **refs)`` at a few points of their Python-level loops.
+With the guard off ``ON`` is False and nothing is called. With the guard on, the
+event is forwarded to the sink installed by a test harness (none by default).
+References to live arrays are passed; the sink must copy what it keeps.
+"""
+import os
+
+ON = os.environ.get("SKGLM_VERIF") == "1"
+_sink = None
+
+
+def set_sink(sink):
+    """Install ``sink(kind, fields)`` (or None) and return the previous one."""
+    global _sink
+    previous, _sink = _sink, sink
+    return previous
+
+
+def emit(kind, **fields):
+    """Forward an event to the installed sink, if any."""
+    if _sink is not None:
+        _sink(kind, fields)
